@@ -106,6 +106,43 @@ impl TypeExpr {
     }
 }
 
+/// A generic type nested `depth` levels deep.  At every level the nested type sits in a chosen
+/// argument position (first / last / middle / random) among 1-3 arguments; the callees vary.
+pub fn deep_type(rng: &mut Rng, depth: usize) -> TypeExpr {
+    const CALLEES: &[&str] = &["Box", "Vec", "Option", "std::rc::Rc", "M", "a::b::C", "K"];
+    const LEAVES: &[&str] = &["u8", "K", "()", "a::B", "x"];
+    let leaf = |rng: &mut Rng| {
+        let l = rng.pick_str(LEAVES);
+        if l == "()" {
+            TypeExpr::Unit
+        } else {
+            TypeExpr::path(l)
+        }
+    };
+    let mode = rng.below(6);
+    let same_callee = rng.chance(0.3);
+    let c0 = rng.pick_str(CALLEES);
+    let mut t = leaf(rng);
+    for _ in 0..depth {
+        let callee = if same_callee { c0 } else { rng.pick_str(CALLEES) };
+        let (n, pos) = match mode {
+            0 => (1, 0),
+            1 => (2, 1),
+            2 => (2, 0),
+            3 => (3, 1),
+            4 => (3, 2),
+            _ => {
+                let n = rng.range(1, 3);
+                (n, rng.below(n))
+            }
+        };
+        let mut args: Vec<TypeExpr> = (0..n).map(|_| leaf(rng)).collect();
+        args[pos] = t;
+        t = TypeExpr::Generic(callee.split("::").map(|x| x.to_string()).collect(), args);
+    }
+    t
+}
+
 fn push_path(p: &[String], out: &mut Vec<String>) {
     for (i, seg) in p.iter().enumerate() {
         if i > 0 {
@@ -363,8 +400,27 @@ pub fn shuffle_names(m: &mut Model, rng: &mut Rng) {
     const POOL_PLAIN: &[&str] = &["A", "B", "C", "D", "E", "F", "G", "H", "K", "L", "M", "P", "Q", "R", "U", "W", "X", "Y", "Z", "Aa", "Ab", "Zz", "B2", "B10", "M_", "_9Q"];
     // names that are prefixes of each other / differ only in digits, underscores or case
     const POOL_CONFUSABLE: &[&str] = &["Expr", "Expr1", "Expr_1", "Expr2", "Expr10", "Exp", "EXPR", "Expr_", "E", "E1", "E_", "Ex", "List", "List1", "ListList", "L", "Li", "LIST", "List_", "_List", "__", "_1", "_1_", "X1", "X10", "X100"];
-    let confusable = rng.chance(0.3);
-    let POOL: &[&str] = if confusable { POOL_CONFUSABLE } else { POOL_PLAIN };
+    // the emitter's own vocabulary (types, variants, statics, helper names of the emitted module)
+    const POOL_EMITTER: &[&str] = &[
+        "Eof", "Node", "State", "Action", "Shift", "Reduce", "Accept", "Quasiterminal", "QuasiterminalKind", "NonterminalKind", "RuleKind", "Token", "Terminal",
+        "R0", "S0", "R1", "S1", "ACTION_TABLE", "GOTO_TABLE", "Eof2", "Node2", "State2", "S", "T", "N", "Goto", "Rule", "Kind", "Parse", "Item",
+    ];
+    // names over a two-letter alphabet: many different sequences of them spell the same string
+    const POOL_CONCAT: &[&str] = &["A", "B", "AA", "AB", "BA", "BB", "AAA", "AAB", "ABA", "ABB", "BAA", "BAB", "BBA", "BBB", "ABAB", "AABB"];
+    if rng.chance(0.15) && concat_twin_names(m, rng) {
+        return;
+    }
+    let which = rng.below(100);
+    let confusable = which < 50;
+    let POOL: &[&str] = if which < 26 {
+        POOL_CONFUSABLE
+    } else if which < 38 {
+        POOL_EMITTER
+    } else if which < 50 {
+        POOL_CONCAT
+    } else {
+        POOL_PLAIN
+    };
     let n = m.nts.len() + m.terms.len();
     if n > POOL.len() {
         return;
@@ -382,6 +438,68 @@ pub fn shuffle_names(m: &mut Model, rng: &mut Rng) {
     for (i, t) in m.terms.iter_mut().enumerate() {
         t.name = format!("{}{st}", names[off + i]);
     }
+}
+
+/// Name three symbols so that two *different* symbol sequences of the grammar spell the same
+/// string when written without a separator: a rule suffix `X Y t...` and a rule suffix `Z t...`
+/// get nX + nY == nZ (`Arg List` / `ArgList`).  Returns false when the grammar has no such pair.
+pub fn concat_twin_names(m: &mut Model, rng: &mut Rng) -> bool {
+    // all suffixes (position, follows-a-nonterminal)
+    let mut sufs: Vec<(Vec<Sym>, bool)> = vec![];
+    for nt in &m.nts {
+        for p in &nt.prods {
+            let syms: Vec<Sym> = p.fields.iter().map(|f| f.sym).collect();
+            for i in 0..syms.len() {
+                let after_nt = i > 0 && matches!(syms[i - 1], Sym::N(_));
+                sufs.push((syms[i..].to_vec(), after_nt));
+            }
+        }
+    }
+    if sufs.len() > 400 {
+        return false;
+    }
+    let mut cands: Vec<(Sym, Sym, Sym, bool)> = vec![];
+    for (a, an) in &sufs {
+        if a.len() < 2 || !matches!(a[1], Sym::N(_)) {
+            continue;
+        }
+        for (b, bn) in &sufs {
+            if b.len() + 1 != a.len() || b[1..] != a[2..] {
+                continue;
+            }
+            let (x, y, z) = (a[0], a[1], b[0]);
+            if z == x || z == y || matches!(x, Sym::T(_)) != matches!(z, Sym::T(_)) {
+                continue;
+            }
+            cands.push((x, y, z, *an && *bn));
+        }
+    }
+    if cands.is_empty() {
+        return false;
+    }
+    let preferred: Vec<_> = cands.iter().filter(|c| c.3).cloned().collect();
+    let (x, y, z, _) = if !preferred.is_empty() && rng.chance(0.8) { *rng.pick(&preferred) } else { *rng.pick(&cands) };
+    let (nx, ny) = if x == y {
+        let n = rng.pick_str(&["Ab", "X", "List"]);
+        (n, n)
+    } else {
+        *rng.pick(&[("Arg", "List"), ("A", "B"), ("Expr", "_1"), ("Ab", "C"), ("X", "X1"), ("Node", "Kind")])
+    };
+    let nz = format!("{nx}{ny}");
+    let mut set = |m: &mut Model, s: Sym, n: &str| match s {
+        Sym::N(i) => m.nts[i].name = n.to_string(),
+        Sym::T(i) => m.terms[i].name = n.to_string(),
+    };
+    set(m, x, nx);
+    set(m, y, ny);
+    set(m, z, &nz);
+    // the three new names must not clash with anything else
+    let mut all: Vec<&str> = m.nts.iter().map(|n| n.name.as_str()).chain(m.terms.iter().map(|t| t.name.as_str())).collect();
+    all.push(&m.term_enum);
+    let n_all = all.len();
+    all.sort();
+    all.dedup();
+    all.len() == n_all
 }
 
 /// Terminal names that are easy to confuse: equal after snake_case conversion (`AB` / `A_b`),
